@@ -908,6 +908,64 @@ def _generator_facts():
 
 
 # ------------------------------------------------------------------------------------------------
+# task_utils.task(): the two branches of the wrapper
+# ------------------------------------------------------------------------------------------------
+
+def _task_decorator_facts():
+    """`@task(...)` applied to a function that already has `pytask_meta` (a mark was applied first) stores the keywords by attribute
+    assignment; otherwise it creates `CollectionMetadata(...)`. For each branch: sorted [(metadata field, keyword it comes from)]."""
+    outer = _func("task_utils.py", "task")
+    inner = [n for n in outer.body if isinstance(n, ast.FunctionDef)]
+    if len(inner) != 1:
+        raise _err("task(): expected one inner wrapper function")
+    w = inner[0]
+    env = Env(w)
+    params = [a.arg for a in outer.args.posonlyargs + outer.args.args + outer.args.kwonlyargs]
+
+    def source(n):
+        r = env.res(n)
+        o = _u(r)
+        if isinstance(r, ast.Name) and r.id in params:
+            return {"id": "id"}.get(r.id, r.id)
+        if "_parse_after" in o:
+            return "after"
+        if "_parse_name" in o:
+            return "name"
+        if isinstance(r, ast.IfExp) and "kwargs" in {x.id for x in ast.walk(r) if isinstance(x, ast.Name)}:
+            return "kwargs"
+        if "Mark(" in o and "'task'" in o:
+            return "taskMark"
+        raise _err(f"task(): value {o[:60]} of a metadata field not understood")
+    branches = [st for st in w.body if isinstance(st, ast.If) and isinstance(st.test, ast.Call) and _callee(st.test) == "hasattr"
+                and _s(st.test.args[1]) == "pytask_meta" and st.orelse]
+    if len(branches) != 1:
+        raise _err("task(): the has-metadata / creates-metadata branch not found")
+    br = branches[0]
+    existing = {}
+    for st in br.body:
+        if isinstance(st, ast.Assign) and len(st.targets) == 1 and isinstance(st.targets[0], ast.Attribute) \
+                and isinstance(st.targets[0].value, ast.Attribute) and st.targets[0].value.attr == "pytask_meta":
+            existing[st.targets[0].attr] = source(st.value)
+        elif isinstance(st, ast.Expr) and isinstance(st.value, ast.Call) and _callee(st.value) == "append" and "pytask_meta.markers" in _u(st.value.func.value):
+            existing["markers"] = source(st.value.args[0])
+        else:
+            raise _err(f"task(): statement in the has-metadata branch not understood: {_u(st)[:60]}")
+    created = {}
+    if len(br.orelse) != 1 or not (isinstance(br.orelse[0], ast.Assign) and _callee(br.orelse[0].value) == "CollectionMetadata"
+                                   and isinstance(br.orelse[0].targets[0], ast.Attribute) and br.orelse[0].targets[0].attr == "pytask_meta"):
+        raise _err("task(): the creates-metadata branch is not `func.pytask_meta = CollectionMetadata(...)`")
+    call = br.orelse[0].value
+    if call.args:
+        raise _err("task(): CollectionMetadata called with positional arguments")
+    for k in call.keywords:
+        v = k.value
+        if k.arg == "markers" and isinstance(v, ast.List) and len(v.elts) == 1:
+            v = v.elts[0]
+        created[k.arg] = source(v)
+    return sorted(existing.items()), sorted(created.items())
+
+
+# ------------------------------------------------------------------------------------------------
 # tree_util.py wrappers
 # ------------------------------------------------------------------------------------------------
 
@@ -977,6 +1035,10 @@ def argsgen_section() -> list[str]:
     pt = _parse_task_facts()
     x, g = _execute_facts(), _generator_facts()
     tw = _tree_wrappers()
+    meta_existing, meta_created = _task_decorator_facts()
+
+    def pairs(xs):
+        return "[" + ", ".join(f"({h.lean_str(a)}, {h.lean_str(v)})" for a, v in xs) + "]"
 
     def lst(xs, f=lambda s: "." + s):
         return "[" + ", ".join(f(s) for s in xs) + "]"
@@ -1028,6 +1090,10 @@ def argsgen_section() -> list[str]:
         f"def genDeps : KwSrc := {kws(g['deps'])}",
         f"def genProds : KwSrc := {kws(g['prods'])}",
         f"def genProductsWin : Bool := {b(g['prodsWin'])}",
+        "/-- `task_utils.task()`: metadata field ↦ the keyword of `@task(...)` it is set from, in the branch for a function that already",
+        "carries `pytask_meta` (a `@pytask.mark.*` was applied first) and in the branch that creates `CollectionMetadata`. -/",
+        f"def taskMetaExisting : List (String × String) := {pairs(meta_existing)}",
+        f"def taskMetaCreated : List (String × String) := {pairs(meta_created)}",
         "/-- `tree_util.py`: wrapper ↦ (optree function, `none_is_leaf`), sorted by name. -/",
         "def treeWrappers : List (String × String × Bool) := [" + ", ".join(f"({h.lean_str(a)}, {h.lean_str(f)}, {b(n)})" for a, f, n in tw) + "]",
         "end Args",
